@@ -1690,6 +1690,11 @@ int ov_pcm_seek_page(OggVorbis_File *vf,ogg_int64_t pos){
               return ov_raw_seek(vf,result);
             }
           }
+          /* reached the start of the link's data without finding where
+             the packet begins: a broken stream, and no packet to look
+             at below */
+          result = OV_EBADPACKET;
+          goto seek_error;
         }
         if(result<0){
           result = OV_EBADPACKET;
